@@ -43,16 +43,7 @@ where
                     SPACE | HORIZONTAL_TAB => &src[..i],
                     LINE_FEED => {
                         is_eol = true;
-
-                        let line = &src[..i];
-
-                        if line.ends_with(&[CARRIAGE_RETURN]) {
-                            // SAFETY: `line.len()` is > 0.
-                            let end = line.len() - 1;
-                            &line[..end]
-                        } else {
-                            line
-                        }
+                        &src[..i]
                     }
                     _ => unreachable!(),
                 };
@@ -73,6 +64,12 @@ where
         if matched_needle {
             break;
         }
+    }
+
+    // The carriage return of a CRLF line ending may have been read in an earlier buffer than the
+    // line feed.
+    if is_eol && definition.name().ends_with(&[CARRIAGE_RETURN]) {
+        definition.name_mut().pop();
     }
 
     if !is_eol {
